@@ -115,19 +115,32 @@ func (p Point) Config() Config {
 		Provision: latProv[p[dProv]], Receivers: latRecv[p[dRecv]], Records: latRec[p[dRec]]}
 }
 
+// simpler lists, per dimension, the value indices from the simplest to the most complex; a failing
+// point is simplified towards the front of these lists. (Identity except for the reduction factor,
+// where 1 = "provision never changes" is the simplest.)
+var simpler = [nDims][]int{
+	dPer: {0, 1, 2}, dStart: {0, 1, 2}, dFac: {2, 0, 1, 3}, dRec: {0, 1, 2}, dProv: {0, 1, 2, 3}, dProp: {0, 1, 2, 3, 4, 5}, dRecv: {0, 1, 2, 3},
+}
+
+// enumeration order, outermost first: the two dimensions that decide the cost of a point (receivers:
+// failing points are run again and simplified; period: number of epochs) are outermost and the product
+// of the others (864) is a multiple of the shard count, so round-robin dealing balances the shards.
+var enumOrder = [nDims]int{dRecv, dPer, dStart, dFac, dRec, dProv, dProp}
+
 // fullLattice is the complete product, in a fixed order.
 func fullLattice() []Point {
 	var out []Point
 	var p Point
-	var rec func(d int)
-	rec = func(d int) {
-		if d == nDims {
+	var rec func(k int)
+	rec = func(k int) {
+		if k == nDims {
 			out = append(out, p)
 			return
 		}
+		d := enumOrder[k]
 		for i := 0; i < dimSize[d]; i++ {
 			p[d] = i
-			rec(d + 1)
+			rec(k + 1)
 		}
 	}
 	rec(0)
